@@ -116,6 +116,15 @@ def run(ctx):
                     ok = False
             if not ok:
                 ctx.finding("decoder-ring-size-not-Q+1", {"selfies": x if len(x) < 400 else None, "Q": Q, "L": LL}, repr(d)[:200])
+            if Q % 7 == 3:
+                # the flags do not change what the index symbols mean
+                for fl in ({"attribute": True}, {"compatible": True}, {"attribute": True, "compatible": True}):
+                    df = call_guard(lambda: sf.decoder(x, **fl), expected=(sf.DecoderError,))
+                    got = df[1][0] if (df[0] == "ok" and fl.get("attribute")) else (df[1] if df[0] == "ok" else None)
+                    ctx.count("api_ring_Q_flag_variants")
+                    if d[0] == "ok" and got != d[1]:
+                        ctx.finding("decoder-ring-size-not-Q+1", {"selfies": x if len(x) < 400 else None, "Q": Q, "L": LL, "flags": fl},
+                                    "with %r the decoder returns %r" % (fl, (got or df[:2])[:120] if isinstance(got, str) else df[:2]))
             y = "[S][Branch%d]" % LL + ds + "[C]" * (Q + 3) + "[O]"
             d = call_guard(lambda: sf.decoder(y), expected=(sf.DecoderError,))
             ok = False
